@@ -17,12 +17,16 @@ import (
 	"hash"
 	"math/big"
 	"sync"
+	"sync/atomic"
 	"time"
 
 	"github.com/gauss-project/aurorafs/pkg/bmt"
 	"github.com/gauss-project/aurorafs/pkg/bmt/reference"
 	"github.com/gauss-project/aurorafs/pkg/bmtpool"
 	"github.com/gauss-project/aurorafs/pkg/boson"
+	"github.com/gauss-project/aurorafs/pkg/cac"
+	"github.com/gauss-project/aurorafs/pkg/file/pipeline"
+	pbmt "github.com/gauss-project/aurorafs/pkg/file/pipeline/bmt"
 	"golang.org/x/crypto/sha3"
 	"verifharness/hx"
 )
@@ -546,6 +550,91 @@ func doConcurrent(jc jcase) {
 	run.HistN("concurrent.hashes", len(jc.Uses))
 }
 
+// ---------------------------------------------------------------- the repo's own pool users under pressure
+// "hashers reused from the shared pool, many hashes at the same time": the users of bmtpool in the
+// repo are cac.hasher and the pipeline bmt writer. All but `left` trees are held, so every call
+// queues for the same tree(s); each hash is compared with the independent oracle.
+type sinkWriter struct{}
+
+func (sinkWriter) ChainWrite(*pipeline.PipeWriteArgs) error { return nil }
+func (sinkWriter) Sum() ([]byte, error)                     { return nil, nil }
+
+func doCallers(workers, left int, seed uint64, millis int) bool {
+	if giveUp() {
+		return false
+	}
+	r := hx.NewRand(seed)
+	sizes := []int{boson.ChunkSize, boson.ChunkSize - 1, boson.ChunkSize / 2, 4096*31 + 7, 4096, 100, boson.ChunkSize - 33, 64, 65, 1}
+	type fixed struct{ data, payload, want []byte }
+	fx := make([]fixed, workers)
+	for i := range fx {
+		n := sizes[i%len(sizes)]
+		d := toyOut(r.U64()&0xffffffff, n)
+		span := make([]byte, 8)
+		binary.LittleEndian.PutUint64(span, uint64(n))
+		fx[i] = fixed{data: d, payload: append(append([]byte{}, span...), d...), want: oracleHash(keccak1, span, d, boson.BmtBranches)}
+	}
+	var held []*bmt.Hasher
+	got := hx.WithTimeout(10*time.Second, func() {
+		for i := 0; i < bmtpool.Capacity-left; i++ {
+			held = append(held, bmtpool.Get())
+		}
+	})
+	jc := jcase{Kind: "callers", Workers: workers, SegCount: left}
+	if !got {
+		run.Violate(hx.Violation{Sig: "pool:trees-missing", Detail: fmt.Sprintf("only %d trees could be taken out of bmtpool", len(held)), Case: jc})
+	}
+	var wrongNew, wrongPipe, errs, ops int64
+	var stop int32
+	var wg sync.WaitGroup
+	for w := 0; w < workers; w++ {
+		wg.Add(1)
+		go func(f fixed) {
+			defer wg.Done()
+			pw := pbmt.NewBmtWriter(sinkWriter{})
+			for round := 0; round < 400 && (round < 4 || atomic.LoadInt32(&stop) == 0); round++ {
+				ch, err := cac.New(f.data)
+				if err != nil {
+					atomic.AddInt64(&errs, 1)
+				} else if !bytes.Equal(ch.Address().Bytes(), f.want) {
+					atomic.AddInt64(&wrongNew, 1)
+				}
+				args := &pipeline.PipeWriteArgs{Data: f.payload}
+				if err := pw.ChainWrite(args); err != nil {
+					atomic.AddInt64(&errs, 1)
+				} else if !bytes.Equal(args.Ref, f.want) {
+					atomic.AddInt64(&wrongPipe, 1)
+				}
+				atomic.AddInt64(&ops, 2)
+			}
+		}(fx[w])
+	}
+	time.AfterFunc(time.Duration(millis)*time.Millisecond, func() { atomic.StoreInt32(&stop, 1) })
+	finished := hx.WithTimeout(time.Duration(millis)*time.Millisecond+45*time.Second, wg.Wait)
+	atomic.StoreInt32(&stop, 1)
+	for _, h := range held {
+		bmtpool.Put(h)
+	}
+	n := atomic.LoadInt64(&ops)
+	run.OracleChecked(int(n))
+	run.HistN("callers.hashes", int(n))
+	if !finished {
+		hangs += 3
+		run.Violate(hx.Violation{Sig: "pool:hang", Detail: fmt.Sprintf("%d goroutines hashing through cac / pipeline with %d free tree(s) did not finish (%d hashes completed)", workers, left, n), Case: jc})
+	}
+	if c := atomic.LoadInt64(&wrongNew); c != 0 {
+		run.Violate(hx.Violation{Sig: "pool:concurrent-cac-hash!=definition", Detail: fmt.Sprintf("cac.New address differs from the BMT hash in %d of %d concurrent hashes", c, n), Case: jc, Impl: c, Want: 0})
+	}
+	if c := atomic.LoadInt64(&wrongPipe); c != 0 {
+		run.Violate(hx.Violation{Sig: "pool:concurrent-pipeline-hash!=definition", Detail: fmt.Sprintf("pipeline bmt writer reference differs from the BMT hash in %d of %d concurrent hashes", c, n), Case: jc, Impl: c, Want: 0})
+	}
+	if c := atomic.LoadInt64(&errs); c != 0 {
+		run.Violate(hx.Violation{Sig: "pool:concurrent-caller-error", Detail: fmt.Sprintf("%d errors from cac.New / ChainWrite on in-range data", c), Case: jc})
+	}
+	run.AddCase("", jc, fmt.Sprintf("callers|%d|%d|%d", workers, left, seed), true)
+	return finished
+}
+
 func genUse(r *hx.Rand, capac int, n int) juse { return mkUse(r, n, r.Bytes(8)) }
 
 func dispatch(jc jcase) {
@@ -558,6 +647,8 @@ func dispatch(jc jcase) {
 		doKeccakReset(jc)
 	case "concurrent":
 		doConcurrent(jc)
+	case "callers":
+		doCallers(jc.Workers, jc.SegCount, 1, 1500)
 	}
 }
 
@@ -649,6 +740,10 @@ func main() {
 			uses = append(uses, genUse(rc, capac, n))
 		}
 		doConcurrent(jcase{Kind: "concurrent", SegCount: seg, Uses: uses, Workers: 64})
+	}
+	// the repo's pool users under pressure, last (a broken caller leaves the shared pool dirty)
+	if doCallers(8, 1, r.U64(), run.N(1200, 5000)) {
+		doCallers(12, 2, r.U64(), run.N(800, 5000))
 	}
 	if giveUp() {
 		run.Note("exploration stopped early: the hasher did not return in several cases")
